@@ -169,8 +169,11 @@ func stubReadToken(l *lexer.Lexer) (lexer.Token, error) {
 
 // Install makes the parser read toks: under the engine through a stub of
 // (*lexer.Lexer).ReadToken, natively through the rendered text.
-func Install(toks []Tok) *ast.Source {
-	src := &ast.Source{Name: "stream.graphql"}
+func Install(toks []Tok) *ast.Source { return InstallNamed("stream.graphql", toks) }
+
+// InstallNamed is Install with the name of the source chosen by the caller.
+func InstallNamed(name string, toks []Tok) *ast.Source {
+	src := &ast.Source{Name: name}
 	if verifrt.Native() {
 		src.Input = Render(toks)
 		verifrt.Show("source", src.Input)
